@@ -371,7 +371,7 @@ pub fn run_one(prop: &str, batch_seed: u64, i: u64, fixed_family: Option<&str>) 
             if foreign_deadlock && v.known.is_some() {
                 continue;
             }
-            if !foreign_deadlock && !counts_for(p, &v, fam) {
+            if !foreign_deadlock && !(counts_for(p, &v, fam) && borrow_premise(p, &v, fam, &d)) {
                 *st.other_props_seen.entry(v.prop.to_string()).or_default() += 1;
                 continue;
             }
